@@ -186,3 +186,43 @@ func H_C11_history_vs_model() {
 	verifAssert(len(m.w.gated) == 0, "C17.history.nothing-remains-gated")
 	verifReach("C11.history.end")
 }
+
+// staggered expiries: three groups opened at arbitrary successive instants, then two further events at arbitrary later
+// instants. One fixed operation sequence, every instant symbolic: which groups have expired at each probe is decided by the
+// solver, and the model says exactly which must have been emitted (oldest first) by then. Reaches histories the bounded
+// enumeration above is too shallow for (a sweep that emits one group, a later sweep that must emit the next).
+func H_C17_staggered_expiry() {
+	hgComposed, hgSent = nil, nil
+	m := &hgModel{w: &Filter{}}
+	m.now = nondetInt()
+	verifAssume(m.now > 0)
+	m.d = nondetInt()
+	verifAssume(m.d > 0)
+	m.w.Expiration = time.Duration(m.d)
+	m.w.NowFunc = func() time.Time { return time.Unix(0, int64(m.now)) }
+	if nondetBool() {
+		m.broker = true
+		m.w.Broker = &hgSender{}
+	}
+	tag := "C17.staggered"
+	ids := [5]string{"a", "b", "c", "d", "e"}
+	for i := 0; i < 5; i++ {
+		delta := nondetInt()
+		verifAssume(delta >= 0)
+		m.now += delta
+		m.process(ids[i], false, tag)
+		m.agree(tag)
+		// C17: after a successful Process at time T no group that expired before T remains
+		for _, g := range m.groups {
+			verifAssert(!(m.now > g.exp), tag+".model-consistent")
+		}
+		n := 0
+		for _, ge := range m.w.gated {
+			if m.now > int(ge.exp.UnixNano()) {
+				n++
+			}
+		}
+		verifAssert(n == 0, tag+".no-expired-group-remains")
+	}
+	verifReach("C17.staggered.end")
+}
